@@ -63,8 +63,16 @@ func (rm *ResponseManager) processRequests(p peer.ID, requests []gsmsg.GraphSync
 	for _, request := range requests {
 		switch request.Type() {
 		case graphsync.RequestTypeCancel:
+			if !rm.isResponseForPeer(request.ID(), p) {
+				log.Warnf("received cancel from %s for request ID %s of another peer", p, request.ID().String())
+				continue
+			}
 			_ = rm.abortRequest(ctx, request.ID(), ipldutil.ContextCancelError{})
 		case graphsync.RequestTypeUpdate:
+			if !rm.isResponseForPeer(request.ID(), p) {
+				log.Warnf("received update from %s for request ID %s of another peer", p, request.ID().String())
+				continue
+			}
 			rm.processUpdate(ctx, request.ID(), request)
 		case graphsync.RequestTypeNew:
 			rm.newRequest(ctx, p, request)
@@ -72,6 +80,13 @@ func (rm *ResponseManager) processRequests(p peer.ID, requests []gsmsg.GraphSync
 			log.Errorf("unrecognized request type: %s", request.Type())
 		}
 	}
+}
+
+// isResponseForPeer reports whether the request ID is unknown or belongs to a
+// response being served to p: only the requesting peer may cancel or update it
+func (rm *ResponseManager) isResponseForPeer(requestID graphsync.RequestID, p peer.ID) bool {
+	response, ok := rm.inProgressResponses[requestID]
+	return !ok || response.peer == p
 }
 
 // processUpdate handles a graphsync update message
